@@ -291,21 +291,45 @@ Proof.
   apply forallb_forall. intros kv H. apply existsb_exists. exists kv. split; [assumption|apply bytes_pair_eqb_refl].
 Qed.
 
-Lemma resolve_relationship_links r v dr rel : resolve_relationship r v dr = Ok rel -> rel_links rel = [].
+(** what [complete] / [completeRelationship] hand to addStandardRelationshipLinks is what the Spec
+    calls "supplied by the resolver" *)
+Lemma resolved_supplied d v dr :
+  (match resolve_relationship (rd_resolver d) v dr with Ok r => r | Er _ => no_relationship end) =
+  match resolve_relationship (rd_resolver d) v dr with
+  | Ok r => match rd_resolver d with Custom _ _ _ => supplied d v dr | _ => r end
+  | Er _ => no_relationship
+  end.
 Proof.
-  unfold resolve_relationship, no_relationship.
-  destruct r as [d f|d f a rm]; destruct (dr || d); try (intro H; inversion H; reflexivity);
-    destruct (f v) as [x|e]; try discriminate.
-  - destruct x; intro H; inversion H; reflexivity.
-  - intro H; inversion H; reflexivity.
+  unfold supplied, resolve_relationship. destruct (rd_resolver d) as [bd f|bd f a rm|f a rm]; try reflexivity.
+  destruct (f v dr); reflexivity.
+Qed.
+
+Lemma resolved_links_meta d v dr :
+  let r := match resolve_relationship (rd_resolver d) v dr with Ok r => r | Er _ => no_relationship end in
+  rel_links r = rel_links (supplied d v dr) /\ rel_meta r = rel_meta (supplied d v dr).
+Proof.
+  unfold supplied, resolve_relationship, no_relationship, linkage_only.
+  destruct (rd_resolver d) as [bd f|bd f a rm|f a rm].
+  - destruct (dr || bd); [|split; reflexivity]. destruct (f v) as [[x|]|e]; split; reflexivity.
+  - destruct (dr || bd); [|split; reflexivity]. destruct (f v) as [x|e]; split; reflexivity.
+  - destruct (f v dr); split; reflexivity.
+Qed.
+
+Lemma meta_names_equal_refl l : meta_names_equal l l = true.
+Proof.
+  unfold meta_names_equal.
+  assert (forallb (fun k => existsb (bytes_eqb k) (map fst l)) (map fst l) = true) as ->; [|reflexivity].
+  apply forallb_forall. intros k H. apply existsb_exists. exists k. split; [assumption|apply bytes_eqb_refl].
 Qed.
 
 Lemma rel_errors_eq v l : rel_errors v l = flat_map (fun d => default_failure d v) l.
 Proof.
   unfold rel_errors. induction l as [|d l IH]; [reflexivity|]. cbn [flat_map]. rewrite IH. f_equal.
   unfold default_failure, resolve_relationship, no_relationship.
-  destruct (rd_resolver d) as [bd f|bd f a rm]; cbn [orb]; destruct bd; try reflexivity; destruct (f v) as [x|e]; try reflexivity.
-  destruct x; reflexivity.
+  destruct (rd_resolver d) as [bd f|bd f a rm|f a rm]; cbn [orb].
+  - destruct bd; try reflexivity. destruct (f v) as [x|e]; try reflexivity. destruct x; reflexivity.
+  - destruct bd; try reflexivity. destruct (f v) as [x|e]; reflexivity.
+  - destruct (f v false); reflexivity.
 Qed.
 
 Lemma attr_errors_eq v t : attr_errors v (rt_attrs t) = attribute_failures t v.
@@ -319,6 +343,33 @@ Proof.
   destruct (ad_resolve d v) as [[|]|]; reflexivity.
 Qed.
 
+Lemma meta_serialises_supplied d v : meta_serialises d v = forallb snd (rel_meta (supplied d v false)).
+Proof.
+  unfold meta_serialises, supplied. destruct (rd_resolver d) as [bd f|bd f a rm|f a rm]; try reflexivity.
+  destruct (f v false); reflexivity.
+Qed.
+
+Lemma rels_marshal_eq id v l :
+  forallb (fun nr : bytes * relationship => relationship_marshals (snd nr))
+    (map (fun d => (rd_name d, add_standard_links id (rd_name d)
+                                 match resolve_relationship (rd_resolver d) v false with
+                                 | Ok r => r
+                                 | Er _ => no_relationship
+                                 end)) l) =
+  forallb (fun d => meta_serialises d v) l.
+Proof.
+  induction l as [|d l IH]; [reflexivity|]. cbn [map forallb snd]. rewrite IH. f_equal.
+  unfold relationship_marshals, add_standard_links. cbn [rel_meta].
+  rewrite meta_serialises_supplied. destruct (resolved_links_meta d v false) as [_ ->]. reflexivity.
+Qed.
+
+Lemma overlay_standard id name rel :
+  rel_links (add_standard_links id name rel) = overlay (standard_links (r_type id) (r_id id) name) (rel_links rel).
+Proof. reflexivity. Qed.
+
+Lemma data_marshals_linkage o : data_marshals (option_map PLinkage o) = true.
+Proof. destruct o; reflexivity. Qed.
+
 Section Refinement.
   Variable pmt : bytes -> pm_result.
   Variable choose : list err -> err.
@@ -329,19 +380,20 @@ Section Refinement.
     match complete choose t id v with
     | Er e => exists es, build t v = BuiltFails es /\ In e es
     | Ok i => build t v = BuiltOk (item_marshals i) /\ i_type i = r_type id /\ i_id i = r_id id /\
-              item_links_standard (witem_of_item i) = true
+              item_rels_ok t v (witem_of_item i) = true
     end.
   Proof.
     unfold complete, build. rewrite attr_errors_eq, rel_errors_eq.
     destruct (attribute_failures t v) as [|e es] eqn:EA.
     - destruct (flat_map (fun d => default_failure d v) (rt_rels t)) as [|e es] eqn:ER.
-      + unfold item_marshals. cbn [i_attrs i_type i_id]. rewrite marshals_eq. repeat split.
-        unfold item_links_standard, witem_of_item. cbn [w_rels i_rels w_type w_id i_type i_id].
-        apply forallb_forall. intros [n rel] H. apply in_map_iff in H. destruct H as [d [H _]].
-        inversion H; subst. cbn [fst snd]. unfold add_standard_links. cbn [rel_links].
-        assert (rel_links match resolve_relationship (rd_resolver d) v false with Ok r => r | Er _ => no_relationship end = []) as ->.
-        { destruct (resolve_relationship (rd_resolver d) v false) eqn:E; [eapply resolve_relationship_links; eauto|reflexivity]. }
-        cbn [fold_left]. apply links_equal_refl.
+      + unfold item_marshals, serialisable. cbn [i_attrs i_rels i_type i_id]. rewrite marshals_eq, rels_marshal_eq. repeat split.
+        unfold item_rels_ok, witem_of_item. cbn [w_rels i_rels w_type w_id i_type i_id].
+        apply forallb_forall. intros [n rel] H. apply in_map_iff in H. destruct H as [d [H Hd]].
+        inversion H; subst. unfold rel_object_ok. cbn [fst snd]. apply existsb_exists. exists d. split; [assumption|].
+        rewrite bytes_eqb_refl, overlay_standard. cbn [andb].
+        unfold add_standard_links at 1. cbn [rel_meta].
+        destruct (resolved_links_meta d v false) as [-> ->].
+        rewrite links_equal_refl, meta_names_equal_refl. reflexivity.
       + exists (e :: es). split; [reflexivity|apply Hchoose].
     - exists (e :: es). split; [reflexivity|apply Hchoose].
   Qed.
@@ -351,12 +403,13 @@ Section Refinement.
     | GErr e => In (status_of e) (outcome_statuses t h ok)
     | GNil => h = HNil
     | GOk i => outcome_statuses t h ok = [if item_marshals i then ok else 500%Z] /\
-               i_type i = r_type id /\ i_id i = r_id id /\ item_links_standard (witem_of_item i) = true
+               i_type i = r_type id /\ i_id i = r_id id /\
+               exists v, h = HVal v /\ item_rels_ok t v (witem_of_item i) = true
     end.
   Proof.
     unfold completed, outcome_statuses. destruct h as [v| |e]; [|reflexivity|left; reflexivity].
     pose proof (complete_spec t id v) as H. destruct (complete choose t id v) as [i|e].
-    - destruct H as [-> H]. destruct (item_marshals i); auto.
+    - destruct H as [-> [H1 [H2 H3]]]. destruct (item_marshals i); repeat split; eauto.
     - destruct H as [es [-> H]]. apply in_map. assumption.
   Qed.
 
@@ -386,12 +439,20 @@ Section Refinement.
     intros H1 H2. unfold item_is, witem_of_item. cbn [w_type w_id]. rewrite H1, H2, !bytes_eqb_refl. reflexivity.
   Qed.
 
+  Lemma fetched_ok i id t g v :
+    i_type i = r_type id -> i_id i = r_id id -> lookup_type sch (r_type id) = Some t -> rt_get t = Some g ->
+    g (r_id id) = HVal v -> item_rels_ok t v (witem_of_item i) = true -> fetched_item_ok sch (witem_of_item i) = true.
+  Proof.
+    intros H1 H2 EL EG Eg H3. unfold fetched_item_ok. cbn [witem_of_item w_type w_id].
+    rewrite H1, H2, EL, EG, Eg. exact H3.
+  Qed.
+
   Lemma get_resources_spec ids : forall acc,
     match get_resources choose sch ids with
     | Er e => In (status_of e) (related_many_statuses sch ids acc)
     | Ok l => related_many_statuses sch ids acc = [if acc && forallb item_marshals l then 200%Z else 500%Z] /\
               sub_identities (map witem_of_item l) ids = true /\
-              forallb item_links_standard (map witem_of_item l) = true
+              forallb (fetched_item_ok sch) (map witem_of_item l) = true
     end.
   Proof.
     induction ids as [|id rest IH]; intro acc.
@@ -404,7 +465,7 @@ Section Refinement.
              ++ destruct HC as [-> [H1 [H2 H3]]].
                 specialize (IH (acc && item_marshals i)). destruct (get_resources choose sch rest) as [l|e].
                 ** destruct IH as [-> [IH2 IH3]]. cbn [map forallb sub_identities].
-                   rewrite (item_is_of_item i id H1 H2), H3, IH2, IH3, andb_assoc. auto.
+                   rewrite (item_is_of_item i id H1 H2), (fetched_ok i id t g v H1 H2 EL EG Eg H3), IH2, IH3, andb_assoc. auto.
                 ** assumption.
              ++ destruct HC as [es [-> H]]. apply in_map. assumption.
           -- specialize (IH acc). destruct (get_resources choose sch rest) as [l|e]; [|assumption].
@@ -470,7 +531,7 @@ Section Refinement.
     rewrite ?negb_andb.
 
   Lemma route_status rq :
-    match route choose sch rq with
+    match route fixed choose sch rq with
     | Return r => response_wf r /\ In (final_status r) (snd (operation_status sch rq))
     | FallThrough _ => snd (operation_status sch rq) = [404%Z]
     | NilDeref => False
@@ -479,7 +540,7 @@ Section Refinement.
     unfold route, handle_patch_resource_request, relationship_response, get_resource.
     unfold rt_get_resource, rt_patch_resource,
       rt_create_resource, rt_delete_resource, rt_get_relationship, rt_patch_relationship, rt_change_members.
-    unfold complete_relationship, add_standard_links, change_members, pick_add, pick_remove, resolve_relationship,
+    unfold complete_relationship, add_standard_links, change_members, resolve_relationship, linkage_only, no_relationship,
       completed, operation_status, endpoint_of, update_rule, fetch_statuses, parent, linkage_of, is_method,
       decode_body, outcome_statuses.
     repeat (destr; red_all; fix_names).
@@ -490,23 +551,41 @@ Section Refinement.
     all: repeat match goal with H : ?x = _ |- context [?x] => rewrite H end.
     all: try (left; reflexivity).
     all: try (change (errors_status [e_status ?e]) with (status_of e); apply in_map; assumption).
+    all: rewrite ?data_marshals_linkage; try (left; reflexivity).
     all: match goal with H : In (status_of ?e) ?l |- _ => exact H end.
   Qed.
 
   (** *** identity and links *)
-  Lemma forallb_links_rids ids : forallb item_links_standard (map witem_of_rid ids) = true.
-  Proof. induction ids as [|r ids IH]; [reflexivity|]. cbn [map forallb]. rewrite IH. reflexivity. Qed.
+  Lemma identities_are_rids ids : identities_are (map witem_of_rid ids) ids = true.
+  Proof.
+    induction ids as [|r ids IH]; [reflexivity|]. cbn [map identities_are]. rewrite IH.
+    unfold item_is, witem_of_rid. cbn [w_type w_id]. rewrite !bytes_eqb_refl. reflexivity.
+  Qed.
   Lemma forallb_identifier_rids ids : forallb is_identifier (map witem_of_rid ids) = true.
   Proof. induction ids as [|r ids IH]; [reflexivity|]. cbn [map forallb]. rewrite IH. reflexivity. Qed.
+
+  Lemma data_is_refl od : data_is od (wdata_of (option_map PLinkage od)) = true.
+  Proof.
+    destruct od as [[|r|ids]|]; cbn [option_map wdata_of wdata_of_linkage data_is]; try reflexivity.
+    - unfold item_is, witem_of_rid. cbn [w_type w_id]. rewrite !bytes_eqb_refl. reflexivity.
+    - apply identities_are_rids.
+  Qed.
+
+  Lemma linkage_items_identifiers od :
+    forallb is_identifier (match wdata_of (option_map PLinkage od) with WOne i => [i] | WMany l => l | _ => [] end) = true.
+  Proof.
+    destruct od as [[|r|ids]|]; cbn [option_map wdata_of wdata_of_linkage]; try reflexivity.
+    apply forallb_identifier_rids.
+  Qed.
 
   Ltac red_id :=
     cbn [fst snd r_id r_type rs_status rs_errors rs_data rs_links rs_call rel_data rel_links negb orb andb
          resp_errors resp_status resp_data option_map pd_type pd_id pd_attrs pd_rels fold_left
-         wdata_of wdata_of_linkage forallb map] in *.
+         wdata_of wdata_of_linkage forallb map data_is] in *.
 
   Ltac fix_id :=
     cbn [w_type w_id w_attrs w_rels witem_of_item witem_of_rid i_type i_id] in *;
-    rewrite ?links_equal_refl, ?bytes_eqb_refl, ?forallb_links_rids, ?forallb_identifier_rids;
+    rewrite ?links_equal_refl, ?bytes_eqb_refl, ?identities_are_rids, ?forallb_identifier_rids;
     repeat match goal with
            | H : ?x = true |- context [?x] => rewrite H
            | H : i_type ?a = _ |- context [i_type ?a] => rewrite H
@@ -516,7 +595,7 @@ Section Refinement.
     cbn [negb orb andb] in *.
 
   Lemma route_identity rq :
-    match route choose sch rq with
+    match route fixed choose sch rq with
     | Return r => rs_errors r = [] -> identity_and_links sch rq (wdata_of (rs_data r)) (rs_links r) = None
     | _ => True
     end.
@@ -524,10 +603,20 @@ Section Refinement.
     unfold route, handle_patch_resource_request, relationship_response, get_resource.
     unfold rt_get_resource, rt_patch_resource,
       rt_create_resource, rt_delete_resource, rt_get_relationship, rt_patch_relationship, rt_change_members.
-    unfold complete_relationship, add_standard_links, change_members, pick_add, pick_remove, resolve_relationship,
-      completed, identity_and_links, endpoint_of, endpoint_linkage, parent, linkage_of, is_method, decode_body, item_is.
+    unfold complete_relationship, add_standard_links, change_members, resolve_relationship, linkage_only, no_relationship,
+      completed, identity_and_links, endpoint_of, endpoint_linkage, resource_value, relationship_reply, reply,
+      parent, linkage_of, is_method, decode_body, item_is.
     repeat (destr; red_id; fix_names; fix_id).
     all: try exact I; try discriminate; try congruence; try reflexivity.
+    all: try match goal with
+         | E1 : wdata_of (option_map PLinkage ?od) = ?w, E2 : data_is ?od ?w = false |- _ =>
+             exfalso; rewrite <- E1, data_is_refl in E2; discriminate
+         end.
+    all: match goal with
+         | E1 : wdata_of (option_map PLinkage ?od) = _ |- _ =>
+             exfalso; pose proof (linkage_items_identifiers od) as HI; rewrite E1 in HI; cbn [forallb] in HI;
+             try rewrite andb_true_r in HI; rewrite HI in *; discriminate
+         end.
   Qed.
 
   (** *** executeRequest and ServeHTTP against the whole Spec *)
@@ -545,7 +634,7 @@ Section Refinement.
     destruct (forallb supported_parameter (rq_query rq)); cbn [negb].
     2:{ eexists; split; [reflexivity|]. split; [apply resp_status_wf|]. split; [left; reflexivity|discriminate]. }
     pose proof (route_status rq) as HS. pose proof (route_identity rq) as HI.
-    destruct (route choose sch rq) as [r|c|].
+    destruct (route fixed choose sch rq) as [r|c|].
     - exists r. destruct HS as [W S]. auto.
     - eexists; split; [reflexivity|]. split; [apply resp_status_wf|]. rewrite HS. split; [left; reflexivity|discriminate].
     - destruct HS.
@@ -864,10 +953,25 @@ Definition toy_things : rtype :=
   {| rt_name := b "things";
      rt_attrs := [ {| ad_name := b "a"; ad_resolve := fun v => AVal (negb (N.eqb v 1)) |} ];
      rt_rels := [ {| rd_name := b "one"; rd_resolver := ToOne true (fun _ => Ok (Some {| r_type := b "things"; r_id := b "2" |})) |};
-                  {| rd_name := b "many"; rd_resolver := ToMany false (fun _ => Ok []) None None |} ];
+                  {| rd_name := b "many"; rd_resolver := ToMany false (fun _ => Ok []) None None |};
+                  (* a resolver of the application's own: one links object with an extra member for
+                     every resource; value 7 also brings its own "self" and a Meta; the Data (an owner
+                     derived from the value) only when it is requested, and never for value 9 *)
+                  {| rd_name := b "owner";
+                     rd_resolver := Custom (fun v requested =>
+                                              Ok {| rel_links := (b "describedby", b "https://example.com/owner") ::
+                                                                 (if N.eqb v 7 then [(s_self, b "/elsewhere")] else []);
+                                                    rel_data := if requested && negb (N.eqb v 9)
+                                                                then Some (LOne {| r_type := b "things"; r_id := [N.add 48 v] |})
+                                                                else None;
+                                                    rel_meta := if N.eqb v 7 then [(b "count", true)] else [] |})
+                                           (fun _ members => Ok (linkage_only (LMany members)))
+                                           (fun _ _ => Er {| e_status := b "403" |}) |} ];
      rt_get := Some (fun id => if bytes_eqb id (b "1") then HVal 1
                                else if bytes_eqb id (b "bad") then HErr {| e_status := b "abc" |}
                                else if bytes_eqb id (b "nil") then HNil
+                               else if bytes_eqb id (b "c7") then HVal 7
+                               else if bytes_eqb id (b "c9") then HVal 9
                                else HVal 0);
      rt_patch := Some (fun id _ _ => HVal 0);
      rt_create := None;
@@ -876,9 +980,9 @@ Definition toy_schema : schema := [toy_things].
 Definition toy_request (m path : string) (accept : list bytes) (bd : body) : request :=
   {| rq_method := b m; rq_path := b path; rq_accept := accept; rq_query := []; rq_body := bd |}.
 
-Definition pinned_fallback : config := {| fix_fallback := false; fix_accept_lists := true; fix_status := true |}.
-Definition pinned_accept : config := {| fix_fallback := true; fix_accept_lists := false; fix_status := true |}.
-Definition pinned_status : config := {| fix_fallback := true; fix_accept_lists := true; fix_status := false |}.
+Definition pinned_fallback : config := {| fix_fallback := false; fix_accept_lists := true; fix_status := true; fix_nil_data := true |}.
+Definition pinned_accept : config := {| fix_fallback := true; fix_accept_lists := false; fix_status := true; fix_nil_data := true |}.
+Definition pinned_status : config := {| fix_fallback := true; fix_accept_lists := true; fix_status := false; fix_nil_data := true |}.
 
 (** (a) an attribute value that does not marshal: the body was a bare error object *)
 Lemma fallback_refuted_before_fix :
@@ -896,3 +1000,10 @@ Proof. exists (toy_request "GET" "/things/2" [b "text/html, application/vnd.api+
 Lemma status_refuted_before_fix :
   exists rq, serve_http pinned_status toy_pmt toy_choose toy_schema rq = Panic.
 Proof. exists (toy_request "GET" "/things/bad" [media_type] BNone). vm_compute. reflexivity. Qed.
+
+(** (d) a custom resolver that answers without Data at a related-resource endpoint: nil dereference *)
+Definition pinned_nil_data : config := {| fix_fallback := true; fix_accept_lists := true; fix_status := true; fix_nil_data := false |}.
+Lemma nil_data_refuted_before_fix :
+  exists rq, serve_http pinned_nil_data toy_pmt toy_choose toy_schema rq = Panic /\
+             answer_status (serve_http fixed toy_pmt toy_choose toy_schema rq) = Some 500%Z.
+Proof. exists (toy_request "GET" "/things/c9/owner" [media_type] BNone). vm_compute. auto. Qed.
